@@ -179,6 +179,24 @@ def run(ctx):
             prevs = [ocorpus[vv["first_seen"][2]][0] if vv["first_seen"][2] >= 0 else "(nothing)" for vv in dd["variants"]]
             common.report(ctx, "history:%s:depends-on-earlier-executions" % t.split(":")[0], "program '%s' gave %d different outcomes in one process depending on what ran before it (first seen after: %s): %s" %
                           (t, len(dd["variants"]), prevs, [(vv["record"].get("display"), vv["record"].get("msg")) for vv in dd["variants"]][:2]), dict(source=sr, variants=dd["variants"][:3]))
+    # ---- (7) programs made of several FILES: the import digraphs of ZnModule (with and without cycles, self-imports, shared modules),
+    # each executed repeatedly from its main file - result, displayed lines and the error (code, message, line) are the same every time
+    mtxt, _ = common.tlc(ctx, "ZnModule", "MC_ZnModule.cfg", timeout=900)
+    mvecs = common.vectors(mtxt, "mod")
+    cyc = [v for v in mvecs if v["res"] == "circular"]
+    okv = [v for v in mvecs if v["res"] == "done"]
+    msel = rnd.sample(cyc, min(len(cyc), 90 if ctx.tier == "quick" else 900)) + rnd.sample(okv, min(len(okv), 30 if ctx.tier == "quick" else 300))
+    mcases = [dict(id=i, edges=v["edges"], main=v["main"], mods=["a", "b", "c"], extra="", more=True, repeat=N) for i, v in enumerate(msel)]
+    mres = common.run_harness(ctx, znh, "module", mcases, timeout=2500, args=["-t", "60"])
+    for r in mres:
+        c = mcases[r["id"]]
+        if r["obs"] != "done":
+            common.report(ctx, "files:%s" % r["obs"], "module driver: %s %s" % (r["obs"], r.get("detail", "")[:300]), dict(case=c)); continue
+        runs += N
+        if r["distinct"] != 1:
+            recs = r["records"][:2]
+            common.report(ctx, "files:nondeterministic:%s" % msel[r["id"]]["res"], "import digraph %s (main imports %s): %d distinct outcomes in %d runs of the same files (counts %s): %s" %
+                          (c["edges"], c["main"], r["distinct"], N, r["counts"], [(x.get("code"), (x.get("msg") or "")[-120:]) for x in recs]), dict(case=c, outcomes=recs, main=r.get("main")))
     cov = dict(traces_validated_against_impl=len(cases) + len(hcases), samples=[dict(dicteq_vector=ev[77]), dict(site_table=modelled[:3])],
                evaluations=runs, distinct_nontrivial=len(cases),
                rule="(1) TLC explores every iteration order of every modelled loop kind over all maps with <=3 entries: the result must equal the canonical order's "
@@ -189,8 +207,8 @@ def run(ctx):
                     "(5) the same HTTP request (query parameters / headers whose names differ only in case, shuffled) served %d times through ZnHttpHandler: one answer; "
                     "the site is modelled as collect-then-stable-sort, whose non-injective-key deviation TLC refutes. (6) history independence: the corpus of (4) plus 15 programs in which a library call "
                     "(JSON generation / parsing, formatting, text methods, file reading) is refused or fails part-way and is followed by calls that work, and programs that end in errors, executed 8 (40) rounds in ONE process, "
-                    "every round in another order: per program one outcome, whatever ran before it"
-                    % (len(ev), N, N * 4, N * 2),
+                    "every round in another order: per program one outcome, whatever ran before it. (7) multi-file programs: 120 (1200) import digraphs of ZnModule (three quarters of them with a cycle) executed %d times each from their main file: one outcome (result, displayed lines, error code / message / line)"
+                    % (len(ev), N, N * 4, N * 2, N),
                sites_in_code=len(inv), sites_modelled=len(modelled), unmodelled_sites=unmodelled, stale_sites=stale, repetitions=N)
     if unmodelled or stale:
         # not a verdict by itself (the repeated executions above are): recorded, so that the new / changed loop gets classified
